@@ -16,7 +16,7 @@ TRUST_COMP = [
 ]
 
 
-def run(pid, families, rule, assumptions, extra_trust=(), n_quick=140, n_thorough=1500, maxops=14):
+def run(pid, families, rule, assumptions, extra_trust=(), n_quick=140, n_thorough=1500, maxops=14, extra=None):
     rep = C.Report(pid)
     rep.trusted = list(C.BASE_TRUST) + TRUST_COMP + list(extra_trust)
     thorough = C.tier() == "thorough"
@@ -39,5 +39,8 @@ def run(pid, families, rule, assumptions, extra_trust=(), n_quick=140, n_thoroug
     for fam in families:
         K.correspondence(rep, fam, n, maxops if not thorough else maxops + 10, tag=pid.lower())
     seen = M.monitor(rep, pid, families, n if not thorough else n * 2, maxops if not thorough else maxops + 10)
+    if extra:
+        for k, v in (extra(rep, thorough) or {}).items():
+            seen.setdefault(k, (v, 'net', {'ops': [], 'cls': 'model'}, -1))
     C.apply_known(rep, pid, seen)
     return rep.finish(rule, assumptions)
